@@ -337,12 +337,13 @@ pub fn run_graphs(ctx: &Ctx, report: &mut Report) {
 
 pub fn run(ctx: &Ctx) -> Report {
     let mut report = Report::new(
-        "graphs: every digraph on ≤4 nodes (exhaustive) and random digraphs on 5–12 nodes, each under 3 node \
+        "(a) graphs: every digraph on ≤4 nodes (exhaustive) and random digraphs on 5–12 nodes, each under 3 node \
          labelings × explicit/implicit sink nodes × batch/piecemeal release, against transitive-closure SCCs; \
-         non-trivial = has a non-singleton SCC or ≥2 edges into one component; distinct by adjacency matrix",
+         non-trivial = has a non-singleton SCC or ≥2 edges into one component; distinct by adjacency matrix; (b) generated begin-blocks with 2–9 `that` contributions (type declarations, value and thunk definitions with dependencies) printed in every permutation (≤4 contributions) or 8–30 random ones: same acceptance and (stdout, exit), equal to the reference machine; (c) 13 cycle probes (value / parameter / thunk / transparent-type cycles rejected with a diagnostic, type-only recursion accepted, no hang)",
     );
     report.exhaustive = Some(true);
     run_graphs(ctx, &mut report);
+    crate::props::c08_blocks::run_blocks(ctx, &mut report);
     report.assume("reference SCCs by transitive closure are correct (12 lines, bit sets)");
     report
 }
@@ -362,5 +363,5 @@ pub fn replay(_ctx: &Ctx, doc: &Value) -> Result<(), Fail> {
         let mut stats = Stats::new();
         return check_all_variants(&g, 1, &mut stats);
     }
-    Err(Fail::new("replay-unsupported", "a known stage", stage.to_string()))
+    crate::props::c08_blocks::replay(_ctx, doc)
 }
